@@ -55,6 +55,9 @@ Partial / modelled:
   repair (deletion by object, `reports/C20-delete-by-object.*`) the full statement is proved:
   `repaired_delete_old_side` / `repaired_delete_new_side`;
   for copies into another file the two sides are two graphs and no function of one sees the other;
+* link lists name their entries by the items' ids; `H5Group.copy` regenerates the `entity_id` attributes but
+  copies link names verbatim: `id_named_links_full` is false — `id_named_links_kept` (ids kept) +
+  `id_named_links_counterexample` (open known finding `C20-fresh-ids-stale-link-names`);
 * the history theorems speak about calls whose entity arguments all lie on the side the call is made on
   (linking an original into the copy, or the copy into the source, is the caller's doing); the source-side
   theorem needs the destination container and its owner outside the source sub-graph;
@@ -613,6 +616,76 @@ example : ((copyGeneric linkedFile linkedFile 0 "data" 2 "b2" false false).toOpt
 /-- an existing name is refused -/
 example : (copyGeneric linkedFile linkedFile 0 "data" 2 "" false true).toOption = none := by decide
 
+/-! ### link lists name their entries by id
+
+Link lists (`Group.data_arrays`, `Tag.references`, `sources` …) link their items under the items'
+`entity_id`; membership (`item in list`), lookup by id and the idempotence of `append` rely on it.
+`H5Group.copy` regenerates the `entity_id` attributes but copies the link names verbatim
+(`copy_complete`: the copy's links carry the *source's* names). With kept ids the convention
+survives the copy (`id_named_links_kept`); with regenerated ids it does not
+(`id_named_links_counterexample`, open known finding `C20-fresh-ids-stale-link-names`: in the copy
+`array in group.data_arrays` is false, `group.data_arrays[array.id]` raises KeyError and a second
+`append` adds a second entry). A repair inside `H5Group.copy` would have to tell link lists from
+owning containers (an entity created without a name is linked under its id in its *owning* container
+too, and must keep that name) — not a small change; recorded, not repaired. -/
+
+/-- the full statement: an id-named link of the source (`name = entity_id` of its target) is an id-named
+link of the copy -/
+def id_named_links_full : Prop :=
+  ∀ (src dst : Graph) (owner obj : Nat) (cls name : String) (keepId : Bool) (g' : Graph) (root : Nat),
+    FileOk dst → copyGeneric src dst owner cls obj name false keepId = .ok (g', root) →
+    ∀ k, ReachF src obj k → ∀ l ∈ src.links k, src.entityId l.2 = some l.1 →
+      ∀ l' ∈ g'.links (copyMap src dst owner cls obj false k), l'.1 = l.1 →
+        g'.entityId l'.2 = some l'.1
+
+section
+variable {src dst : Graph} {owner obj : Nat} {cls name : String} {g' : Graph} {root : Nat}
+
+/-- it holds when the ids are kept -/
+theorem id_named_links_kept (hdst : FileOk dst)
+    (hc : copyGeneric src dst owner cls obj name false true = .ok (g', root))
+    (k : Nat) (hk : ReachF src obj k) (l' : String × Nat)
+    (hl' : l' ∈ g'.links (copyMap src dst owner cls obj false k))
+    (hnamed : ∀ l ∈ src.links k, l.1 = l'.1 → src.entityId l.2 = some l.1) :
+    g'.entityId l'.2 = some l'.1 := by
+  rw [((copy_complete hdst hc).2.2.2 k hk).2.1] at hl'
+  obtain ⟨l0, hl0, e⟩ := List.mem_map.mp hl'
+  have hr : ReachF src obj l0.2 := .step l0.1 hk hl0
+  rw [← e]
+  simp only
+  rw [ids_kept hdst hc l0.2 hr]
+  exact hnamed l0 hl0 (by rw [← e])
+
+end
+
+theorem linkedFile_ok : FileOk linkedFile := by
+  refine ⟨by decide, ?_⟩
+  intro k l hl
+  have hk : k ∈ keys linkedFile := (node?_isSome_iff _ k).mp (node?_isSome_of_link hl)
+  have : ∀ k ∈ keys linkedFile, ∀ l ∈ linkedFile.links k, l.2 ∈ keys linkedFile := by decide
+  exact this k hk l hl
+
+/-- with regenerated ids it fails: the copied tag's reference list links the copied array (id `id:11`)
+under the source's id `id:0` -/
+theorem id_named_links_counterexample : ¬ id_named_links_full := by
+  intro h
+  have hc : ∃ r, copyGeneric linkedFile linkedFile 0 "data" 2 "b2" false false = .ok r := by
+    cases hh : copyGeneric linkedFile linkedFile 0 "data" 2 "b2" false false with
+    | ok r => exact ⟨r, rfl⟩
+    | error e =>
+      have : (copyGeneric linkedFile linkedFile 0 "data" 2 "b2" false false).toOption.isSome = true := by decide
+      rw [hh] at this; cases this
+  obtain ⟨r, hr⟩ := hc
+  have e : r = (copyGeneric linkedFile linkedFile 0 "data" 2 "b2" false false).toOption.get! := by rw [hr]; rfl
+  have hreach : ReachF linkedFile 2 7 :=
+    .step (p := 6) (k := 7) "references" (.step (p := 5) (k := 6) "t" (.step (p := 2) (k := 5) "tags" .refl (by decide))
+      (by decide)) (by decide)
+  have := h linkedFile linkedFile 0 2 "data" "b2" false r.1 r.2 linkedFile_ok hr 7 hreach ("id:0", 4) (by decide)
+    (by decide) ("id:0", 10)
+  rw [e] at this
+  revert this
+  decide
+
 /-! ## independence
 
 After a deep copy the graph consists of two sides: the *old* nodes (the destination file as it was,
@@ -1021,6 +1094,20 @@ theorem independent_history_copy_unchanged (hdst : FileOk dst) (ho : owner ∈ k
   exact h.same (hout k' hk') (fun l hl => hout l.2 (copy_closed hdst hc k' hk' l hl))
 
 end
+
+/-- the driver's `append` (with the object test of the source link lists, `Store/CopyFrames.lean`) accepts
+only what `contAppend` accepts, with the same result: `independent_append`, `lu_contAppend` and the
+history theorems apply to it -/
+theorem contAppend20_refines {g g' : Graph} {c : Cont} {key : Key} (h : contAppend20 g c key = .ok g') :
+    contAppend g c key = .ok g' := by
+  unfold contAppend20 at h
+  split at h
+  · split at h
+    · split at h
+      · cases h
+      · exact h
+    · exact h
+  · exact h
 
 /-! ### deletion
 
